@@ -408,7 +408,7 @@ mod proofs {
     /// or reports trailing data itself (serde_json does)).
     #[kani::proof]
     #[kani::unwind(34)]
-    fn scalar_de() {
+    fn scalar_real_de() {
         let buf: [u8; MAX] = kani::any();
         let n: usize = kani::any();
         kani::assume(n <= MAX);
@@ -433,6 +433,57 @@ mod proofs {
                     assert!(x.to_bytes() == b);
                     assert!(y.to_bytes() == b);
                 }
+                (Err(e), None) => assert!(e == Error::Custom),
+                _ => assert!(false),
+            }
+        }
+    }
+    static mut SC_SEEN: [u8; 32] = [0; 32];
+    static mut SC_CALLS: usize = 0;
+    /// stand-in for `Scalar::from_canonical_bytes`: records the argument; "canonical" iff the top nibble is 0; the value
+    /// is a cheap injective-enough function of the low 16 bytes (no reduction)
+    fn stub_from_canonical(bytes: [u8; 32]) -> subtle::CtOption<Scalar> {
+        unsafe {
+            SC_SEEN = bytes;
+            SC_CALLS += 1;
+        }
+        let mut lo = [0u8; 16];
+        let mut i = 0;
+        while i < 16 {
+            lo[i] = bytes[i];
+            i += 1;
+        }
+        subtle::CtOption::new(Scalar::from(u128::from_le_bytes(lo)), subtle::Choice::from((bytes[31] & 0xf0 == 0) as u8))
+    }
+    /// PARAMETRIC in `Scalar::from_canonical_bytes` (stubbed on both sides): fast version of `scalar_real_de`.
+    /// The decoder is called exactly once, on exactly the first 32 received bytes; its None becomes Err(custom), its
+    /// Some(x) becomes Ok(x); short input: Err without calling the decoder; exactly 32 elements consumed.
+    #[kani::proof]
+    #[kani::unwind(34)]
+    #[kani::stub(curve25519_dalek::scalar::Scalar::from_canonical_bytes, stub_from_canonical)]
+    fn scalar_de() {
+        let buf: [u8; MAX] = kani::any();
+        let n: usize = kani::any();
+        kani::assume(n <= MAX);
+        let compact: bool = kani::any();
+        let mut de = De::new(&buf[..n], compact, kani::any());
+        let r = Scalar::deserialize(&mut de);
+        assert!(de.seqs == 1 && de.slices == 0);
+        if n < 32 {
+            assert!(de.pos == n && unsafe { SC_CALLS } == 0);
+            match r {
+                Err(e) => assert!(e == short_err(compact, n)),
+                Ok(_) => assert!(false),
+            }
+        } else {
+            let b = first32(&buf[..n]);
+            assert!(de.pos == 32 && unsafe { SC_CALLS } == 1);
+            assert!(unsafe { SC_SEEN } == b);
+            let native: Option<Scalar> = Scalar::from_canonical_bytes(b).into();
+            kani::cover!(native.is_some());
+            kani::cover!(native.is_none());
+            match (r, native) {
+                (Ok(x), Some(y)) => assert!(x.to_bytes() == y.to_bytes()),
                 (Err(e), None) => assert!(e == Error::Custom),
                 _ => assert!(false),
             }
